@@ -881,9 +881,10 @@ def run(ctx):
     ctx.coverage["rule"] = (
         "terms of Scope/PySyntax.v from one seeded PRNG, rendered to source: 3/4 'executed' programs (no else/handler/"
         "star/__all__, every def and lambda registered and run after the module), 1/4 'free' programs (all constructs); "
-        "of every 10 programs 2 are generated without class / comprehension (stage-2 shaped) and 1 without any nested scope "
-        "(stage-1 shaped); the counters fragment:stage1 / fragment:stage2 / fragment:outside are the MEASURED number of "
-        "programs inside Fragment.s1_block / s2_block (with star-free namespaces) / neither - only those inside a stage are "
+        "of every 10 programs 2 are generated without class / comprehension (stage-2 shaped), 2 without class (stage-3 shaped), 1 "
+        "without any nested scope (stage-1 shaped) and 1 inside fragment 2 of the unused side; the counters fragment:stage1 / "
+        "fragment:stage2 / fragment:stage3 / fragment:outside (and ufragment:*) are the MEASURED number of programs inside "
+        "Fragment.s1_block / s2_block / s3_block (with star-free namespaces) / none - only those inside a stage are "
         "covered by a theorem, and each of them is also checked against the proved statement by vm_compute; "
         "non-trivial = a name is reported missing, an import unused, or CPython recorded a failing global lookup; "
         "distinct by hash of (source, namespaces)")
